@@ -32,6 +32,7 @@ type C01Ev struct {
 	After   [][2]int64 `json:"after"`            // (id, bankroll) of every seated player after the event
 	Between bool       `json:"between_hands"`    // no hand in progress after the event
 	Phase   string     `json:"phase,omitempty"`  // where in the hand an injected operation happened
+	GameID  string     `json:"game_id,omitempty"`
 }
 
 type C01Case struct {
@@ -72,7 +73,7 @@ func (d *Drv) settleEvents(c *C01Case) {
 		if gs == nil || gs.Result == nil {
 			continue
 		}
-		e := C01Ev{Kind: "settle", After: afterOf(*ev.Abs), Between: false}
+		e := C01Ev{Kind: "settle", After: afterOf(*ev.Abs), Between: false, GameID: gs.GameID}
 		for _, pi := range t.State.GamePlayerIndexes {
 			if pi >= 0 && pi < len(t.State.PlayerStates) {
 				e.Hand = append(e.Hand, idOf(t.State.PlayerStates[pi].PlayerID))
@@ -111,6 +112,20 @@ func runC01Case(c *C01Case) {
 		d.Quiesce(quiesceLimit)
 		d.settleEvents(c)
 		if err == nil {
+			if r.Chance(1, 4) {
+				// more chips are brought before the player has sat in
+				a := d.Abs()
+				c.Events = append(c.Events, C01Ev{Kind: "in", ID: id, Chips: chips, After: afterOf(a), Between: betweenHands(a), Phase: phase + " (not yet seated in)"})
+				more := int64(1 + r.Intn(900))
+				if d.te.PlayerReserve(pt.JoinPlayer{PlayerID: pid(id), RedeemChips: more, Seat: -1}) == nil {
+					d.Quiesce(quiesceLimit)
+					d.settleEvents(c)
+					a = d.Abs()
+					c.Events = append(c.Events, C01Ev{Kind: "topup", ID: id, Chips: more, After: afterOf(a), Between: betweenHands(a), Phase: phase + " (before sitting in)"})
+				}
+				d.JoinAndSettle(pid(id))
+				return
+			}
 			d.JoinAndSettle(pid(id))
 			a := d.Abs()
 			c.Events = append(c.Events, C01Ev{Kind: "in", ID: id, Chips: chips, After: afterOf(a), Between: betweenHands(a), Phase: phase})
@@ -174,6 +189,8 @@ func runC01Case(c *C01Case) {
 	}
 	pol := &Policy{R: r.Fork(99), FoldPct: 10 + r.Intn(25), AllinPct: 3 + r.Intn(20), RaisePct: 10 + r.Intn(40)}
 	hands := 0
+	released := false
+	settledGames := map[string]bool{}
 	for step := 0; step < 900 && hands < c.Hands; step++ {
 		a := d.Abs()
 		if betweenHands(a) {
@@ -208,9 +225,48 @@ func runC01Case(c *C01Case) {
 			if r.Chance(1, 30) {
 				leave(phase, false)
 			}
+			if !released && r.Chance(1, 60) {
+				// the table is released while a hand runs: the hand is still played out and must be settled
+				d.te.ReleaseTable()
+				released = true
+			}
 		}
 		_, res := d.Advance(pol)
 		d.settleEvents(c)
+		if g := d.te.GetGame(); g != nil && g.GetGameState() != nil {
+			gs := g.GetGameState()
+			if gs.Status.CurrentEvent == "GameClosed" && gs.Result != nil && !settledGames[gs.GameID] {
+				settledGames[gs.GameID] = true
+				seen := false
+				for _, e := range c.Events {
+					if e.Kind == "settle" && e.GameID == gs.GameID {
+						seen = true
+					}
+				}
+				if !seen {
+					// the hand engine has produced the hand's result but the table published no settlement: record the result
+					// the table should have applied, with the bankrolls it shows
+					d.Quiesce(quiesceLimit)
+					t := d.te.GetTable()
+					e := C01Ev{Kind: "settle", After: afterOf(d.Abs()), Between: false, Phase: "result produced, no settlement published", GameID: gs.GameID}
+					for _, pi := range t.State.GamePlayerIndexes {
+						if pi >= 0 && pi < len(t.State.PlayerStates) {
+							e.Hand = append(e.Hand, idOf(t.State.PlayerStates[pi].PlayerID))
+						} else {
+							e.Hand = append(e.Hand, 998)
+						}
+					}
+					for _, rr := range gs.Result.Players {
+						e.Results = append(e.Results, C01Res{Idx: rr.Idx, Changed: rr.Changed, Final: rr.Final})
+					}
+					c.Events = append(c.Events, e)
+					c.Note = "a hand reached its result but was never settled"
+				}
+			}
+		}
+		if released && betweenHands(d.Abs()) {
+			break
+		}
 		if res == "wedged" {
 			c.Note = "wedged at step " + fmt.Sprint(step)
 			break
